@@ -27,7 +27,7 @@ HEADER = """From Coq Require Import Reals Lra.
 From Interval Require Import Tactic.
 From EP Require Import lib.Base lib.Corr lib.Euclid model.Burn.
 Open Scope R_scope.
-Ltac burn_unfold := unfold k1_bt2, k1_bt3, k2_bt2, k2_bt3, k2_core, dsd_bt, dsd_leg, norm2, norm3.
+Ltac burn_unfold := unfold k1_bt2, k1_bt3, k2_bt2, k2_bt3, k2_core, k3_bt2, k3_bt3, k3_theta, k3_theta3, dsd_bt, dsd_leg, norm2, norm3; unfold acos, Rsqr.
 """
 
 
@@ -54,6 +54,24 @@ def sample(rng):
     pk3 = [[round(rng.uniform(-1.2, 1.2) * d[0], 4) for _ in range(3)] for _ in range(3)]
     cases.append(dict(module=K + 'kenamond2', cls='Kenamond2', params={'geometry': 3, 'R': R_, 'D1': D1, 'D2': D2, 'dets': d, 't_d': td5}, pts=pk3,
                       coq=lambda p, a=(R_, D1, D2, d[0], d[1], d[2], d[3], td5[0], td5[1], td5[2], td5[3], td5[4]): 'k2_bt3 %s %s %s %s' % (' '.join(qlit(v) for v in a), qlit(p[0]), qlit(p[1]), qlit(p[2]))))
+    # Kenamond 3 (inert obstacle): 2-D and 3-D, detonator anywhere outside the obstacle, points in line of sight and in the shadow
+    for geo in (2, 3):
+        R3 = round(rng.uniform(1, 3), 4); D3 = round(rng.uniform(0.5, 2), 4); td3 = round(rng.uniform(-1, 1), 4)
+        while True:
+            xd3 = [round(rng.uniform(-4, 4) * R3, 4) for _ in range(geo)]
+            if 1.3 * R3 < math.sqrt(sum(v * v for v in xd3)):
+                break
+        p3 = []
+        while len(p3) < 3:
+            q = [round(rng.uniform(-4, 4) * R3, 4) for _ in range(geo)]
+            if math.sqrt(sum(v * v for v in q)) > 1.1 * R3:
+                p3.append(q)
+        # one point straight behind the obstacle (deep shadow)
+        nd = math.sqrt(sum(v * v for v in xd3))
+        p3.append([round(-v / nd * R3 * rng.uniform(1.2, 3), 4) for v in xd3])
+        fn = 'k3_bt2' if geo == 2 else 'k3_bt3'
+        cases.append(dict(module=K + 'kenamond3', cls='Kenamond3', params={'geometry': geo, 'R': R3, 'D': D3, 'x_d': xd3, 't_d': td3}, pts=p3,
+                          coq=lambda p, a=(R3, D3) + tuple(xd3) + (td3,), fn=fn: '%s %s %s' % (fn, ' '.join(qlit(v) for v in a), ' '.join(qlit(v) for v in p))))
     # DSD cylindrical expansion
     r1 = round(rng.uniform(0.5, 2), 4); r2 = round(r1 * rng.uniform(1.3, 3), 4)
     DC1, DC2 = round(rng.uniform(0.5, 2), 4), round(rng.uniform(0.5, 2), 4)
@@ -111,13 +129,58 @@ def main(payload):
             P = np.array(c['pts'], dtype=float); Q = np.array(c['pts2'], dtype=float)
             a, b = bt(s, P), bt(s, Q)
             dist = np.sqrt(((P - Q) ** 2).sum(axis=1))
-            res = {'lipschitz_ratio': [float(v) for v in np.abs(a - b) / (dist / c['Dmin'] + 1e-300)], 'bt': [float(v) for v in a], 'bt2': [float(v) for v in b],
+            h = c.get('h', 1e-6)
+            g2f = np.zeros(len(P)); g2b = np.zeros(len(P)); kink = np.zeros(len(P))
+            for ax in range(P.shape[1]):
+                E = np.zeros(P.shape[1]); E[ax] = h
+                f = (bt(s, P + E) - a) / h; bk = (a - bt(s, P - E)) / h
+                g2f += f ** 2; g2b += bk ** 2; kink = np.maximum(kink, np.abs(f - bk))
+            grad = {'fwd': [float(v) for v in np.sqrt(g2f)], 'bwd': [float(v) for v in np.sqrt(g2b)], 'kink': [float(v) for v in kink]}
+            res = {'grad': grad, 'lipschitz_ratio': [float(v) for v in np.abs(a - b) / (dist / c['Dmin'] + 1e-300)], 'bt': [float(v) for v in a], 'bt2': [float(v) for v in b],
                    'min_bt': float(min(a.min(), b.min()))}
             out.append(res)
         except Exception as ex:
             out.append({'error': type(ex).__name__ + ': ' + str(ex)[:200]})
     return out
 '''
+
+
+def local_speeds(c):
+    P = c['params']
+    def nrm(p):
+        return math.sqrt(sum(a * a for a in p))
+    if c['cls'] in ('Kenamond1', 'Kenamond3'):
+        return [P['D'] for _ in c['pts']]
+    if c['cls'] == 'Kenamond2':
+        return [None if abs(nrm(p) - P['R']) < 1e-3 * P['R'] else (P['D1'] if nrm(p) < P['R'] else P['D2']) for p in c['pts']]
+    if c['cls'] == 'CylindricalExpansion':
+        out = []
+        for p in c['pts']:
+            r = nrm(p)
+            if r < P['r_1'] * 1.001 or abs(r - P['r_2']) < 1e-3 * P['r_2']:
+                out.append(None)
+            elif r < P['r_2']:
+                out.append(P['D_CJ_1'] - P['alpha_1'] / r)
+            else:
+                out.append(P['D_CJ_2'] - P['alpha_2'] / r)
+        return out
+    return None
+
+
+def lower_bounds(c):
+    P = c['params']
+    def dist(p, q):
+        return math.sqrt(sum((a - b) ** 2 for a, b in zip(p, q)))
+    if c['cls'] == 'Kenamond1':
+        return [P['t_d'] + dist(p, P['x_d']) / P['D'] for p in c['pts']]
+    if c['cls'] == 'Kenamond3':
+        return [P['t_d'] + dist(p, P['x_d']) / P['D'] for p in c['pts']]
+    if c['cls'] == 'Kenamond2':
+        geo = P['geometry']
+        dets = [[0.0] * (geo - 1) + [d] for d in P['dets'][:2]] + [[0.0] * geo] + [[0.0] * (geo - 1) + [d] for d in P['dets'][2:]]
+        Dmax = max(P['D1'], P['D2'])
+        return [min(t + dist(p, x) / Dmax for t, x in zip(P['t_d'], dets)) for p in c['pts']]
+    return None
 
 
 def oracle(rng, tier, reasons):
@@ -134,10 +197,21 @@ def oracle(rng, tier, reasons):
                 Dmin, tmin = P['D'], P['t_d']
             elif c['cls'] == 'Kenamond2':
                 Dmin, tmin = P['D2'], min(P['t_d'])
+            elif c['cls'] == 'Kenamond3':
+                Dmin, tmin = P['D'], P['t_d']
             else:
                 Dmin = min(P['D_CJ_1'] - P['alpha_1'] / P['r_1'], P['D_CJ_2'] - P['alpha_2'] / P['r_2']); tmin = P['t_d']
+            if c['cls'] == 'Kenamond2':
+                # pairs straddling the interface |x| = R between the two explosives
+                geo = P['geometry']
+                for _k in range(4):
+                    u = [rng.gauss(0, 1) for _ in range(geo)]
+                    nu = math.sqrt(sum(v * v for v in u))
+                    u = [v / nu for v in u]
+                    pts = pts + [[P['R'] * (1 - 1e-6) * v for v in u]]
+                    pts2 = pts2 + [[P['R'] * (1 + 1e-6) * v for v in u]]
             payload.append({'module': c['module'], 'class': c['cls'], 'params': P, 'pts': pts, 'pts2': pts2, 'Dmin': Dmin})
-            meta.append((c, tmin))
+            meta.append((dict(c, pts=pts), tmin))
     # Kenamond 3: pairs straddling the shadow boundary and random pairs
     for _ in range(n):
         R_ = round(rng.uniform(1, 4), 4); D = round(rng.uniform(0.5, 2), 4)
@@ -151,6 +225,20 @@ def oracle(rng, tier, reasons):
         P = {'geometry': 2, 'R': R_, 'D': D, 'x_d': xd, 't_d': 0.3}
         payload.append({'module': K + 'kenamond3', 'class': 'Kenamond3', 'params': P, 'pts': pts, 'pts2': pts2, 'Dmin': D})
         meta.append(({'cls': 'Kenamond3', 'module': K + 'kenamond3', 'params': P, 'pts': pts}, 0.3))
+        # 3-D, detonator off every axis
+        while True:
+            xd3 = [round(rng.uniform(-4, 4) * R_, 4) for _ in range(3)]
+            if math.sqrt(sum(v * v for v in xd3)) > 1.3 * R_ and min(abs(v) for v in xd3) > 0.3 * R_:
+                break
+        pts = []
+        while len(pts) < 10:
+            q = [rng.uniform(-4, 4) * R_ for _ in range(3)]
+            if math.sqrt(sum(v * v for v in q)) > 1.05 * R_:
+                pts.append([round(v, 4) for v in q])
+        pts2 = [[x + rng.uniform(-1e-3, 1e-3) for x in p] for p in pts]
+        P = {'geometry': 3, 'R': R_, 'D': D, 'x_d': xd3, 't_d': 0.3}
+        payload.append({'module': K + 'kenamond3', 'class': 'Kenamond3', 'params': P, 'pts': pts, 'pts2': pts2, 'Dmin': D})
+        meta.append(({'cls': 'Kenamond3', 'module': K + 'kenamond3', 'params': P, 'pts': pts}, 0.3))
     res = H.run_real(ORACLE, payload)
     fails = []
     for (c, tmin), p, r in zip(meta, payload, res):
@@ -162,6 +250,26 @@ def oracle(rng, tier, reasons):
             fails.append({'solver': c['cls'], 'params': c['params'], 'point': p['pts'][i], 'nearby_point': p['pts2'][i],
                           'burn_times': [r['bt'][i], r['bt2'][i]], 'ratio_to_distance_over_slowest_speed': worst,
                           'why': 'burn time changes faster than a front of the slowest local speed could travel (discontinuity or wrong gradient)'})
+        # eikonal: |grad bt| = 1 / (local detonation speed), away from kinks (ridges where two arrival branches meet, interfaces)
+        sp = local_speeds(c)
+        if sp is not None and 'grad' in r:
+            for i, D in enumerate(sp[:len(r['grad']['fwd'])]):
+                if D is None:
+                    continue
+                gf, gb, kk = r['grad']['fwd'][i], r['grad']['bwd'][i], r['grad']['kink'][i]
+                if kk * D > 1e-3:
+                    continue
+                if abs(gf * D - 1) > 1e-3 and abs(gb * D - 1) > 1e-3:
+                    fails.append({'solver': c['cls'], 'params': c['params'], 'point': c['pts'][i], 'gradient_magnitude_times_local_speed': [gf * D, gb * D],
+                                  'why': 'eikonal equation violated: |grad burntime| is not 1 / (detonation speed of the explosive at that point)'})
+                    break
+        lb = lower_bounds(c)
+        if lb is not None:
+            for i, (b0, b) in enumerate(zip(lb, r['bt'])):
+                if b < b0 - 1e-9 * (1 + abs(b0)):
+                    fails.append({'solver': c['cls'], 'params': c['params'], 'point': c['pts'][i], 'burn_time': b, 'earliest_physically_possible': b0,
+                                  'why': 'burn time earlier than a straight path from the nearest detonator at the fastest detonation speed allows'})
+                    break
         if r['min_bt'] < tmin - 1e-9:
             fails.append({'solver': c['cls'], 'params': c['params'], 'min_burn_time': r['min_bt'], 'earliest_detonation': tmin,
                           'why': 'burn time earlier than the earliest detonation'})
